@@ -123,6 +123,7 @@ func main() {
 		}
 		d := &Drv{Tier: *tier, Seed: *seed, R: &rng{s: *seed*0x9e3779b97f4a7c15 + 12345}, S: NewSink(*out, fmt.Sprintf("%s-s%02d", name, *shard), *per), Shard: *shard, NShards: *nshards}
 		d.R.s += uint64(*shard) * 0x51ed27
+		prologue(d, name)
 		drv(d)
 		d.S.Summary()
 	case "conc":
@@ -158,6 +159,7 @@ func main() {
 						}
 					}
 				}()
+				prologue(d, name)
 				drv(d)
 			}()
 		}
